@@ -184,22 +184,21 @@ Theorem c13_head_key : forall c, In c species_head_columns -> head_column (head_
 Proof. exact head_key_species. Qed.
 Print Assumptions c13_head_key.
 
-(* the row the override is written to is the row create_animal_objects reads, for every country code of the
-   country table that is a row of the head-count table ... *)
-Theorem c13_head_reach_partial : forall code, In code iso3_codes -> In code head_table_rows ->
-  head_write_label code = head_read_label code.
-Proof. exact head_reach_rows. Qed.
-Print Assumptions c13_head_reach_partial.
+(* the row the override is written to is the row create_animal_objects reads, for EVERY country code (including
+   the remapped SWT -> SWZ): the code is remapped before the override is applied.  Re-proved against the
+   statement order found in animal_populations.main on every run. *)
+Theorem c13_head_reach : forall code, head_write_label code = head_read_label code.
+Proof. exact head_reach_all. Qed.
+Print Assumptions c13_head_reach.
 
-(* ... but NOT for every country code: while the override is applied before the country code is remapped, a
-   remapped code (SWT -> SWZ) loses it.  (Stated so that it still compiles once the order is repaired.) *)
-Theorem c13_head_reach_refuted : head_override_before_remap = true ->
-  exists code, In code iso3_codes /\ head_write_label code <> head_read_label code.
+(* in particular for every country of the country table, with the label the head-count table actually has *)
+Theorem c13_head_reach_countries : forall code, In code iso3_codes ->
+  head_write_label code = head_read_label code /\ In (head_read_label code) head_table_rows.
 Proof.
-  intro H. vm_compute in H. try discriminate H.
-  exists "SWT". split; [vm_compute; auto 200|vm_compute; discriminate].
+  assert (H : forallb (fun code => str_mem (head_read_label code) head_table_rows) iso3_codes = true) by (vm_compute; reflexivity).
+  intros code Hc. split; [apply head_reach_all|]. rewrite forallb_forall in H. apply str_mem_In. exact (H code Hc).
 Qed.
-Print Assumptions c13_head_reach_refuted.
+Print Assumptions c13_head_reach_countries.
 
 (* ------------------------------------------------------------------ numeric overrides: frame (evaluated on the witness configurations) *)
 (* dispatch with the extra option differs from dispatch without it at most at the `allowed` constants; the time
